@@ -44,6 +44,9 @@ type PropConfig struct {
 	// strings are kept too (C03 keeps the ownership invariants "own(...)" its frame.append
 	// obligations rest on)
 	KeepText []string `json:"keep_text"`
+	// EnsuresOnly: further functions of which only the postconditions belong to this property
+	// (C16: the arity clauses of the function implementations)
+	EnsuresOnly []string `json:"ensures_only"`
 }
 
 type KnownFinding struct {
@@ -170,6 +173,7 @@ func checkProperty(e *engine.Engine, verif, id, tier string, seed int, loadS flo
 		key       string
 		lemma     bool
 		frameOnly bool
+		ensOnly   bool
 		rep       *engine.FuncReport
 	}
 	var jobs []*job
@@ -181,6 +185,9 @@ func checkProperty(e *engine.Engine, verif, id, tier string, seed int, loadS flo
 	}
 	for _, f := range cfg.FrameOnly {
 		jobs = append(jobs, &job{key: f, frameOnly: true})
+	}
+	for _, f := range cfg.EnsuresOnly {
+		jobs = append(jobs, &job{key: f, ensOnly: true})
 	}
 	for _, l := range cfg.Lemmas {
 		jobs = append(jobs, &job{key: l, lemma: true})
@@ -206,6 +213,17 @@ func checkProperty(e *engine.Engine, verif, id, tier string, seed int, loadS flo
 			continue
 		}
 		j.rep = e.VerifyFunction(fn)
+	}
+	for _, j := range jobs {
+		if j.rep == nil || !j.ensOnly {
+			continue
+		}
+		for _, ob := range j.rep.Obligations {
+			if !strings.HasPrefix(ob.Kind, "ensures") && ob.Kind != "vacuity" {
+				ob.Static = true
+				ob.Status = "skipped"
+			}
+		}
 	}
 	for _, j := range jobs {
 		if j.rep == nil || !j.frameOnly {
